@@ -154,8 +154,12 @@ def make_case_grammar(ctx, g, layout_kind):
 
 
 def run(ctx):
+    from pgverif.mon.contracts import Contracts
+
     mon = LRMonitor()
     mon.install()
+    con = Contracts(("skipws", "get_tree"))
+    con.install()
     maxlen = 4 if ctx.tier == "quick" else 5
     try:
         for name, g, alphabet in glrwork.grammar_stream(ctx, acyclic=True, eps_weights=(2, 3, 3, 4), overlap_share=0.15):
@@ -164,6 +168,8 @@ def run(ctx):
             one_grammar(ctx, g, alphabet, maxlen)
     finally:
         mon.uninstall()
+        con.uninstall()
+    con.report(ctx)
 
 
 def eps_positions(g):
@@ -290,7 +296,14 @@ def check_input(ctx, g, glr, lr, case, inp, skip, extra=(None, None)):
     try:
         with pgx.watchdog(30):
             o = glrobs.parse_glr(glr, inp)
-    except (pgx.CaseTimeout, pgx.BudgetExceeded):
+    except pgx.BudgetExceeded as e:
+        if type(e).__name__ == "ContractBroken":
+            ctx.case(key + ("GLR",), True)
+            ctx.violation("contract-broken", dict(case, parser="GLR"), str(e))
+            return
+        ctx.inconc("glr budget %r %r" % (case["grammar"], inp))
+        return
+    except pgx.CaseTimeout:
         ctx.inconc("glr timeout %r %r" % (case["grammar"], inp))
         return
     if o.kind == "forest" and not o.loop:
